@@ -335,7 +335,14 @@ func files(seed uint64, n int, bin, tmp string) {
 				t.timescale = uint32(ts)
 			}
 		}
-		interleave(rng, raws, 0, rng.Intn(3) == 0)
+		// one file in three with no ordering discipline at all (chunk offsets not increasing inside a track, chunks sharing
+		// bytes, zero-size chunks, merged neighbours); the others interleaved in per-track order, with or without gaps
+		wild := rng.Intn(3) == 0
+		if wild {
+			interleaveWild(rng, raws, 0)
+		} else {
+			interleave(rng, raws, 0, rng.Intn(3) == 0)
+		}
 		var payloadLen uint64
 		for _, r := range raws {
 			x := tbl.Expand(r)
@@ -401,6 +408,9 @@ func files(seed uint64, n int, bin, tmp string) {
 			timedOut := ctx.Err() == context.DeadlineExceeded
 			cancel()
 			desc := describe(tracks, mdatFirst, ms)
+			if wild {
+				desc += " ; wild chunk layout"
+			}
 			if err != nil {
 				se := stderr.String()
 				if strings.Contains(se, "panic:") || strings.Contains(se, "goroutine ") || timedOut {
@@ -564,9 +574,11 @@ func checkOutput(tracks []*trackSpec, xs []*tbl.Ref, ref *trackSpec, refX *tbl.R
 				fail("mp4ff-crop", "offset-outside-mdat", desc, fmt.Sprintf("track %d sample %d at %d+%d, mdat payload is [%d,%d)", t.id, n, o, sz, mdatStart, mdatEnd))
 				break
 			}
+			// the same bytes as the input holds at the input's offset of this sample (chunks may share bytes)
 			okb := true
+			io := x.OffsetOf[n-1]
 			for i := 0; i < int(sz); i++ {
-				if od[int(o)+i] != sampleByte(t.id, n, i) {
+				if od[int(o)+i] != inData[int(io)+i] {
 					okb = false
 				}
 			}
